@@ -301,7 +301,7 @@ def run(c, facts, tier):
         toks = list(row["tokens"]) if row else None
         ok = False
         if toks and len(toks) == len(exp):
-            ok = all(t == e_ or (e_ == "MASK" and t.startswith("{") and maskval is not None) for t, e_ in zip(toks, exp))
+            ok = all(t == e_ or (e_ == "MASK" and t.startswith("{") and t != P and maskval is not None and "$" not in t) for t, e_ in zip(toks, exp))
         c.ob("C08.check", cpc.key, kind, ok, "emits `%s`" % (" ".join(toks) if toks else None), witness="-perm %s644" % {"Equal": "", "AtLeast": "-", "Any": "/"}[kind] if not ok else None)
     c.ob("C08.check", cpc.key, "the Equal mask is all twelve permission bits", maskval is not None and maskval[0] == int(posix["perm_mask"], 8), "mask `%s` = %s; POSIX %s" % (maskval[2][:80] if maskval else None, oct(maskval[0]) if maskval else None, posix["perm_mask"]))
     c.control("C08.algebra", any(pyeval("m & ~(t & ~l)", m_, t_, l_, 1) != pyeval(chmod["algebra"]["-"], m_, t_, l_, 1) for m_, t_, l_ in itertools.product((0, 1), repeat=3)), "fixture m∧¬(t∧¬l) differs from chmod '-' on the truth table")
